@@ -472,7 +472,14 @@ impl Default for GenOpts {
 }
 
 pub fn gen_string(t: &mut Tape, max_len: usize) -> Vec<u8> {
-    let n = t.choose(max_len + 1, "str_len");
+    let mut n = t.choose(max_len + 1, "str_len");
+    // Lengths at the capacities a MainDevice keeps strings in (64 for names, 128 for descriptions).
+    if crate::tape::gen() >= 2 && t.flag(15, 100, "str_len_boundary") {
+        let b = t.pick(&[64usize, 128, 63, 65, 127, 129], "str_len_at");
+        if b <= max_len {
+            n = b;
+        }
+    }
     let class = t.choose(8, "str_class");
     (0..n)
         .map(|i| match class {
